@@ -112,7 +112,9 @@ type Interp struct {
 	Call func(key string, recv Val, args []Val) (Val, bool)
 	// Effects records calls that are neither inlined nor modelled but declared
 	// as observable effects (e.g. "(*Conn).writeContReq").
-	Effect   func(key string, recv Val, args []Val) (Val, bool)
+	Effect func(key string, recv Val, args []Val) (Val, bool)
+	// DynCall models a call of a function value (a func-typed field or variable).
+	DynCall  func(fun Val, args []Val) (Val, bool)
 	Trace    []string
 	depth    int
 	MaxDepth int
@@ -125,6 +127,7 @@ const (
 	ctlNext ctl = iota
 	ctlReturn
 	ctlBreak
+	ctlContinue
 )
 
 type frame struct {
@@ -337,9 +340,47 @@ func (f *frame) stmt(s ast.Stmt, e *env) ctl {
 	case *ast.ExprStmt:
 		f.expr(s.X, e)
 		return ctlNext
+	case *ast.ForStmt:
+		fe := newEnv(e)
+		if s.Init != nil {
+			if c := f.stmt(s.Init, fe); c != ctlNext {
+				return c
+			}
+		}
+		for iter := 0; ; iter++ {
+			if iter > 20000 {
+				outOfFragment("%s: loop bound exceeded", f.name)
+			}
+			if s.Cond != nil && !f.truth(f.expr(s.Cond, fe), s.Cond) {
+				break
+			}
+			c := f.block(s.Body.List, newEnv(fe))
+			if c == ctlReturn {
+				return c
+			}
+			if c == ctlBreak {
+				break
+			}
+			// ctlContinue falls through to the post statement
+			if s.Post != nil {
+				f.stmt(s.Post, fe)
+			}
+		}
+		return ctlNext
+	case *ast.IncDecStmt:
+		op := token.ADD
+		if s.Tok == token.DEC {
+			op = token.SUB
+		}
+		v := f.binary(op, f.expr(s.X, e), cv{constant.MakeInt64(1)}, s.X)
+		f.store(s.X, v, e, false)
+		return ctlNext
 	case *ast.BranchStmt:
 		if s.Tok == token.BREAK && s.Label == nil {
 			return ctlBreak
+		}
+		if s.Tok == token.CONTINUE && s.Label == nil {
+			return ctlContinue
 		}
 	case *ast.EmptyStmt:
 		return ctlNext
@@ -1001,6 +1042,16 @@ func (f *frame) call(x *ast.CallExpr, e *env) Val {
 		}
 	}
 	if obj == nil {
+		if f.in.DynCall != nil {
+			fv := f.expr(x.Fun, e)
+			var args []Val
+			for _, a := range x.Args {
+				args = append(args, f.expr(a, e))
+			}
+			if v, ok := f.in.DynCall(fv, args); ok {
+				return v
+			}
+		}
 		outOfFragment("%s: dynamic call %s", f.name, types.ExprString(x.Fun))
 	}
 	var args []Val
